@@ -376,8 +376,9 @@ impl<'a, F: IVP> SolOut for DefaultSolOut<'a, F> {
             
             let mut i = self.next_idx;
             
-            if (xold - *x).abs() <= self.tol {
-                // Initial callback (xold == x): output at matching t_eval points
+            if xold == *x {
+                // Initial callback (xold == x): output at matching t_eval points. A genuine step, however short, is
+                // sampled through its interpolant below
                 while i < t_eval.len() && (t_eval[i] - *x).abs() <= self.tol {
                     self.t.push(t_eval[i]);
                     self.y.push(y.to_vec());
